@@ -130,7 +130,7 @@ func randLexFragment(r *rand.Rand, withNul bool) string {
 	case 9, 10:
 		return pick(r, opPool)
 	case 11:
-		return pick(r, []string{"-- c\n", "--", "-- x", "/* c */", "/**/", "/* * / */", "/*", "/* x", "/***/", "/* a\nb */", "--\r\n", "-- é\r"})
+		return pick(r, []string{"-- c\n", "--", "-- x", "/* c */", "/**/", "/* * / */", "/*", "/* x", "/***/", "/* a\nb */", "--\r\n", "-- é\r", "/*/ x */", "/*/", "/*/*/", "--1\n", "--.5\n", "--2024-01-01 tmp\n", "---\n", "/*--*/", "--/*\n"})
 	case 12:
 		return "$" + pick(r, []string{"", "a", "abc", "1", "_x", `"a b"`, "select", `"un`, " "})
 	case 13:
